@@ -301,7 +301,8 @@ class Gen:
             self.w("%s  else if(mode == \"M\") { auto %s = sbepp::get_header(%s); typedef decltype(%s.blockLength()) BT_;" % (pad, hv, gv, hv))
             self.w("%s      %s.blockLength(BT_(static_cast<typename BT_::value_type>(tk.dec()))); %s.numInGroup(%s(static_cast<typename %s::value_type>(n_))); }" % (pad, hv, hv, NT, NT))
             self.w("%s  else if(mode == \"C\") { %s.clear(); }" % (pad, gv))
-            self.w("%s  else if(mode == \"Z\") { auto %s = sbepp::fill_group_header(%s, %s(static_cast<typename %s::value_type>(tk.u64())));" % (pad, hv, gv, NT, NT))
+            # documented call form: a plain integer (of the numInGroup value type) as the count
+            self.w("%s  else if(mode == \"Z\") { auto %s = sbepp::fill_group_header(%s, static_cast<typename %s::value_type>(tk.u64()));" % (pad, hv, gv, NT))
             self.w("%s      o.kv(\"hdr\", reinterpret_cast<unsigned char*>(sbepp::addressof(%s)) - base_); return; }" % (pad, hv))
             self.w("%s  for(auto %s : %s) {" % (pad, ev, gv))
             self.encode_level(g, ev, ind + 1)
